@@ -337,7 +337,7 @@ func callOracle(c CallCase, o *h.Obs) *h.Fail {
 		return nil
 	case oErr:
 		if err == nil {
-			return h.Failf("C11|calls|missing-error|"+p.shape+"|"+p.why+p.whyCell, "%s\nreference: the call must fail (%s %s)\nanko returned %s, host invoked %d times", ctx(), p.why, p.whyCell, ank.Describe(got), len(rec.calls))
+			return h.Failf("C11|calls|missing-error|"+p.shape+"|"+p.why+":"+p.whyCell, "%s\nreference: the call must fail (%s %s)\nanko returned %s, host invoked %d times", ctx(), p.why, p.whyCell, ank.Describe(got), len(rec.calls))
 		}
 		if len(rec.calls) != 0 {
 			return h.Failf("C11|calls|invoked-despite-error|"+p.shape+"|"+p.why, "%s\nreference: the call must fail (%s) without invoking the host\nhost was invoked; error: %v", ctx(), p.why, err)
